@@ -17,6 +17,16 @@ import "verif/model"
 //
 // The input is not modified.
 func Desugar(e *model.Expr) *model.Expr {
+	d := desugar(e)
+	if e.K != "group" {
+		// the core node stands where the notation stood: keep its span and the
+		// position of its own token (operator, '(' of a call, '.', '[', identifier)
+		d.Start, d.End, d.Own, d.Line, d.Col = e.Start, e.End, e.Own, e.Line, e.Col
+	}
+	return d
+}
+
+func desugar(e *model.Expr) *model.Expr {
 	switch e.K {
 	case "num", "str", "time", "bool":
 		return &model.Expr{K: e.K, Text: e.Text}
